@@ -15,9 +15,10 @@ import (
 
 // ---- part 1: SecretConnection byte stream under read/write chunking ----
 //
-// One execution: a fresh pair of REAL SecretConnections (real handshake on both sides, fixed identity
-// keys, seeded ephemeral keys), then a sequence of Write calls on one side and Read calls with a cyclic
-// pattern of buffer sizes on the other, single-threaded. The raw connection underneath is the harness
+// One execution: a fresh pair of SecretConnections (deep copies of the state a real two-sided handshake
+// with fixed identity keys and seeded ephemeral keys produced, see streamTemplates), then a sequence of
+// Write calls on one side and Read calls with a cyclic pattern of buffer sizes on the other,
+// single-threaded. The raw connection underneath is the harness
 // wire in stream mode: every raw Read issued by SecretConnection.Read is a choice point whose default
 // answer is a full read; the explorer runs every execution with at most `bound` short reads. The first
 // choice point of an execution selects the configuration (zero cost), so one call of the explorer covers
@@ -38,8 +39,10 @@ func (c streamCfg) String() string {
 	return fmt.Sprintf("writes=%v reads=%v drainEach=%v duplex=%v content=%d", c.writes, c.pattern, c.drainEach, c.duplex, c.content)
 }
 
-// payload returns n bytes of the stream starting at absolute offset off: every aligned 4-byte word of
-// the stream is distinct, so a lost, duplicated, displaced or foreign byte range cannot go unnoticed.
+// The payload of a direction is a slice of one long fixed stream, so the expected bytes at every stream
+// offset are known. Family 0: the aligned 4-byte words are consecutive counters (all distinct, snappy finds
+// matches); family 1: the counters run through a mixing function (incompressible). A lost, duplicated,
+// displaced or foreign byte range changes the bytes seen at some offset.
 const maxStream = 3*65537 + 8
 
 var streams [2][2][]byte
